@@ -29,6 +29,15 @@ CLAIMS = {
     "C03": dict(engine="dbworld", design_ref="5/C03", technique=SIM + "; restart as a generated operation",
                 text="The C02 histories with a clean restart (reopen of the same file with the same key) after every call or at random points; state after each reopen must equal the acknowledged model state including the hidden next-version counter (observed through later puts); Open must leave bytes, inode and mtime untouched; committed schema-v1 golden files must open with the recorded contents.",
                 note="golden files were produced by the pinned tree; crashes are C04's"),
+    "C05": dict(engine="dbworld", design_ref="5/C05", technique=SIM + "; enumerated corruption of saved files (every bit flip, every truncation, splices, foreign keys)",
+                text="Histories with high-entropy marker names/values; after every save every file of the state directory is scanned for every marker in raw/hex/base64/JSON-escaped form and for mode bits; the key-encryption key sits behind a counting wrapper that is switched to an outage after Open (reads, writes and persistence must go on; the KEK must never be consulted outside Open). Separately, saved files are corrupted exhaustively per sampled file (each single-bit flip, each truncation length, foreign KEKs, DEK/DB swaps between databases under the same and different KEKs, ciphertext halves spliced, altered schema version): Open must fail or yield identical contents.",
+                note="KEK is a real tink AEAD created in process, not a KMS; replacing the whole file by an older snapshot is out of scope as stated; temp files left by kills are scanned in C04's engine"),
+    "C06": dict(engine="dbworld", design_ref="5/C06", technique=SIM + "; audit sink fails at a drawn record (write error, short write, sync error)",
+                text="Authorised and denied calls at the DB API and through the handlers; for each call the bytes the sink received between invoke and return must contain a complete, synced JSON line with the right principal/action/secret/version/authorized; at the instant a record is written and synced the database file must still be byte-identical to the file at invoke; a failed sink must fail the call with no value and no state change (checked on the running handle and after a restart); an unchanged conditional get must write nothing.",
+                note="in-memory sink; concurrency of real audit files is the concurrent stage's job"),
+    "C08": dict(engine="dbworld", design_ref="5/C08", technique=SIM + "; request corruption and identity faults as injected message faults",
+                text="Real Client -> in-process transport -> real handlers -> real DB. A drawn subset of requests is damaged (method, content type, browser header, truncated / non-JSON / wrongly typed bodies, unknown endpoint) or meets an identity fault (lookup error, anonymous node, malformed grant, empty grants, legacy capability name); each is classified ill-formed / well-formed / unspecified by the generator. Ill-formed: non-2xx, file bytes and state unchanged, zero audit records, no marker bytes. Accepted: exact status map and exact result vs. the model with the rules from the scripted WhoIs answer; audit principal equals that identity.",
+                note="no sockets; net/http's own request parsing is bypassed (requests are handed to mux.ServeHTTP)"),
     "C09": dict(engine="dbworld", design_ref="5/C09", technique=SIM,
                 text="Seeded histories of put/activate/delete/restart interleaved with conditional gets carrying every kind of V, judged against the model at the DB API, through handler+Client, and for FileClient on files generated from the model.",
                 note="sequential; trusts the map model"),
